@@ -118,10 +118,11 @@ class Mon:
             cpu.opcode_len = olen
         self.bump('words_primed_in_the_other_instruction_set')
 
-    def judge_word(self, kind, w, itpos='out', tag='', check_state=False, prime=False):
-        """full comparison of one concrete word.  Returns 'ok' | 'skip-unpredictable' | 'violation'"""
+    def judge_word(self, kind, w, itpos='out', tag='', check_state=False, prime=False, reuse=None):
+        """full comparison of one concrete word.  Returns 'ok' | 'skip-unpredictable' | 'violation'.
+        reuse = (ctx, desc) of an earlier setup(): decode does not depend on anything a step-less decode could change"""
         rng = self.rng
-        ctx, desc = self.setup(kind, itpos, rng)
+        ctx, desc = reuse if reuse is not None else self.setup(kind, itpos, rng)
         cpu = ctx.cpu
         if prime:
             self.prime_other_set(cpu, kind, w)
@@ -237,6 +238,71 @@ def run_product(mon, kind, spec):
             mon.bump('product_paths_class_disagree_but_unconstrained')
 
 
+REG4 = [0, 1, 13, 14, 15]
+REG3 = [0, 7]
+
+
+def field_candidates(ch, k, row):
+    if ch == 'c' and row.has_cond:
+        return [14]
+    if k == 4 and ch in 'ndmstauhl':
+        return REG4
+    if k == 3 and ch in 'ndmt':
+        return REG3
+    if k <= 3:
+        return list(range(1 << k))
+    top = (1 << k) - 1
+    return sorted({0, 1, 2, 3, 4, 5, 8, top, top - 1, 1 << (k - 1), (1 << (k - 1)) - 1, (1 << (k - 1)) + 1} & set(range(top + 1)))
+
+
+def field_products(mon, spec):
+    """boundary-value sweep from the encoding side: for every reference row, the cross product of ALL values of its narrow
+    fields (<= 3 bits: shift types, P/U/W, S, imm2/imm3 pieces, sz, ...), corner values of its wide fields and the
+    registers {0, 1, SP, LR, PC}; capped per row by random sub-sampling.  Guards of the kind `field > 3`, `Rd == 13 and
+    shift != LSL`, `wback and n == t` in the emulator's per-instruction decode are exercised on both sides of their bounds."""
+    import itertools
+    rng = mon.rng
+    kind = spec['set']
+    table = mon.tables[kind]
+    rows = [r for r in table.rows if r.kind == 'INSTR']
+    its = ['out'] if kind == 'arm' else ['out', 'mid', 'last']
+    for ri, row in enumerate(rows):
+        if ri % spec['of'] != spec['shard']:
+            continue
+        letters = list(row.fields)
+        cands = [field_candidates(ch, len(row.fields[ch]), row) for ch in letters]
+        total = 1
+        for c in cands:
+            total *= len(c)
+        cap = spec['cap']
+        if total <= cap:
+            combos = itertools.product(*cands)
+        else:
+            combos = (tuple(rng.choice(c) for c in cands) for _ in range(cap))
+        free = ~(row.mask | row.sb_mask) & ((1 << row.width) - 1)
+        for bits_ in row.fields.values():
+            for b in bits_:
+                free &= ~(1 << b)
+        reuse = {}
+        n = 0
+        for combo in combos:
+            w = row.value | row.sb_value
+            for ch, v in zip(letters, combo):
+                bits_ = row.fields[ch]
+                kk = len(bits_)
+                for i, b in enumerate(bits_):
+                    if (v >> (kk - 1 - i)) & 1:
+                        w |= 1 << b
+            w |= rng.getrandbits(row.width) & free
+            itpos = its[n % len(its)]
+            if n % 150 < len(its) or itpos not in reuse:
+                reuse[itpos] = mon.setup(kind, itpos, rng)
+            n += 1
+            mon.bump('field_product_words')
+            mon.judge_word(kind, w, itpos=itpos, tag='fp', reuse=reuse[itpos])
+        mon.bump('field_product_rows')
+
+
 def run_shard_common(pid, spec, kinds):
     mon = Mon(pid, spec)
     k = spec['kind']
@@ -263,6 +329,8 @@ def run_shard_common(pid, spec, kinds):
                 w = (rng.choice([0b11101, 0b11110, 0b11111]) << 27) | rng.getrandbits(27)
             mon.judge_word(kind, w, itpos='out' if kind == 'arm' else rng.choice(['out', 'mid', 'last']), tag='r%d' % (w >> 24),
                            check_state=(i % 16 == 0), prime=(i % 3 == 0))
+    elif k == 'fields':
+        field_products(mon, spec)
     elif k == 'rows':
         # words built from the reference rows with the lock-step generator (register pools, structured register lists,
         # corner immediates, should-be bits honoured) and words one fixed bit away from a word of another row
